@@ -19,6 +19,9 @@ ASSUMPTIONS = [
 
 def keyfn(kind, run, det):
     case = det.get("case") or {}
+    if case.get("id", 0) >= 920000:
+        o = case.get("opts", {})
+        return "process-%s%s%s" % ("up" if o.get("upload") else "down", "-bin" if o.get("binary") else "", "-dir" if o.get("directory") else "")
     if case.get("id", 0) >= 910000:
         pre = (case.get("pre") or [{}])[0].get("size")
         src = (case.get("nodes") or [{}])[0].get("size")
@@ -49,12 +52,19 @@ def run(tier, v):
     s3 = vlib.run_driver(h, "c01_resume", out3, {}, timeout=1500)
     f3, d3 = E.gather(out3, 1)
     details.update(d3)
-    obs = E.strip_lines(files + f2 + f3, out)
+    bins = vlib.build_cmds(("trz", "tsz"))
+    out4 = os.path.join(vlib.scratch(), "c01proc")
+    s4 = vlib.run_driver(h, "c01_process", out4, {"bindir": os.path.dirname(bins["trz"]), "runs": 16 if quick else 160, "shards": 16}, timeout=1500)
+    f4, d4 = E.gather(out4, 2)
+    details.update(d4)
+    obs = E.strip_lines(files + f2 + f3 + f4, out)
     bad, _, st1 = E.judge(obs, "TransferObs", "TransferObs_c01.cfg", v, details, "obs", keyfn=keyfn)
     bad2, drift, st2 = E.judge(files, "TransferTrace", "TransferTrace.cfg", v, details, "msg", violation=False)
     # a message-level invariant failure (predicted destination differs from the observed one) is a violation
     cov["traces_validated_against_impl"] = s["runs"] + s2["runs"] + s3["runs"]
     cov["overwrite_existing_runs"] = s3["runs"]
+    cov["process_level_runs"] = s4["runs"]
+    cov["traces_validated_against_impl"] += s4["runs"]
     cov["obs_files_rejected"] = bad
     cov["msg_level_drift"] = drift[:10]
     cov["msg_level_rejected_files"] = bad2
